@@ -142,6 +142,24 @@ def real_input_runs(res, scratch, tier):
     names = [l.split("\t")[0] for l in text.split("\n") if l]
     if o.kind != "ok" or names != [f"r{i}" for i in range(n)]:
         res.fail("C11/real-run:many-workers", f"{n} one-record workers with at most 256 open files: {o.brief()}, {len(names)} of {n} records written", {"real_inputs": "s" * n, "cores": 2, "batch": 1, "nofile": 256})
+    # the same on a host that reports a single CPU (the --cores clamp is computed from cpu_count), --cores 1 and 2
+    import multiprocessing as _mp
+
+    real_cc = _mp.cpu_count
+    for cores in (1, 2):
+        resource.setrlimit(resource.RLIMIT_NOFILE, (256, hard))
+        _mp.cpu_count = lambda: 1
+        try:
+            o, text = run(cores, 1)
+        finally:
+            _mp.cpu_count = real_cc
+            resource.setrlimit(resource.RLIMIT_NOFILE, (soft, hard))
+        res.evaluations += 1
+        res.count("worker_processes_under_descriptor_limit", n)
+        names = [l.split("\t")[0] for l in text.split("\n") if l]
+        if o.kind != "ok" or names != [f"r{i}" for i in range(n)]:
+            res.fail(f"C11/real-run:many-workers-one-cpu", f"host with cpu_count() = 1, --cores {cores}, {n} one-record workers with at most 256 open files: {o.brief()}, {len(names)} of {n} records written",
+                     {"real_inputs": "s" * n, "cores": cores, "batch": 1, "nofile": 256, "cpu_count": 1})
     res.sample({"real_process_inputs": patterns, "batches": [1, 2, 3, 4], "cores": [1, 2, 3]})
 
 
